@@ -34,11 +34,15 @@ type Case struct {
 	FName  string         `json:"fname"`
 	Oracle Oracle         `json:"oracle"`
 	Res    map[string]Res `json:"res"`
+	Store  []StoreCall    `json:"store,omitempty"` // the listing / viewing layer, each call twice through one instance
 	Note   string         `json:"note,omitempty"`
 }
 
 var scratch string
 var dropReason string
+
+// the listing / viewing layer is exercised on every storeEvery-th tree case (all of them in the thorough tier)
+var storeEvery = 3
 
 func setupEnv() {
 	path := os.Getenv("PATH")
@@ -83,6 +87,9 @@ func runTree(k int, stream string, muts []string, src *Y) (*Case, bool) {
 	c.Res["meta"] = runMeta(file)
 	c.Res["noeval"] = runNoEval(file)
 	c.Res["load"] = runLoad(file, "")
+	if storeEvery <= 1 || k%storeEvery == 0 || stream == "fixed" || strings.HasPrefix(stream, "corpus") {
+		c.Store = runStore(doc)
+	}
 	return c, true
 }
 
@@ -139,6 +146,9 @@ func genC13(out *vh.Out, tier string, outPath string) {
 		k++
 	}
 	thorough := tier == "thorough"
+	if thorough {
+		storeEvery = 1
+	}
 
 	// 1. fixed corner documents
 	for _, t := range []*Y{Null(), Map(), Str("x"), List(), Int(1), minimalDef(), baseDef()} {
